@@ -31,7 +31,7 @@ RULE = (
 )
 ASSUMPTIONS = ["writes are observed through Python's audit events and stat snapshots (a C extension writing behind Python's back would only be seen by the snapshot, and only inside the scratch area)"]
 BUDGET = {"quick": (160, 4), "thorough": (30000, 16)}
-REQUIRED = ["failing_command", "nested_world", "flatten_existing_dest", "flatten_relative_dest", "create_new_ascmhl", "tampered", "readonly_ok", "create_sf", "create_sf_beside_history"]
+REQUIRED = ["failing_command", "nested_world", "flatten_existing_dest", "flatten_relative_dest", "create_new_ascmhl", "tampered", "readonly_ok", "create_sf", "create_sf_beside_history", "leftover_partial"]
 
 CFG = {
     "kinds": ["create"] * 5 + ["create_sf"] + ["put_new", "overwrite", "rm", "mkdir", "mv"],
@@ -54,7 +54,7 @@ def _scn(draw):
             scn["tree"][base] = {"in.mov": "inside"}
             scn["tree"][sib] = {"next.mov": "beside", "more.mov": "beside too"}
             scn["steps"] = [{"op": "create", "root": base, "formats": ["md5"], "flags": []}, {"op": "create", "root": "", "formats": ["md5"], "flags": []}] + scn["steps"]
-    scn["damage"] = draw(st.sampled_from([None, None, None, None, "tamper", "rm_manifest", "rm_chain"]))
+    scn["damage"] = draw(st.sampled_from([None, None, None, "leftover_partial", "leftover_partial", "tamper", "rm_manifest", "rm_chain"]))
     scn["probes"] = draw(st.lists(st.tuples(st.sampled_from(PROBES), st.integers(0, 1000)).map(list), min_size=4, max_size=10))
     if any(k in scn["tree"] for k in ("Clips", "s", "Reel1")):
         # single-file create on an entry that merely shares a name prefix with a sibling history folder
@@ -69,6 +69,7 @@ def strategy(tier):
 def classify_create_diff(w, changed, before, after, res, scope=None):
     """every changed path must be explained by a history in scope that gained exactly one generation"""
     by_hist = {}
+    changed = [p for p in changed if not p.endswith(".partial")]  # (a later create may reuse or clear the temporary files of an interrupted one)
     for p in changed:
         parts = p.split("/")
         if ASC in parts:
@@ -132,7 +133,14 @@ def run_case(scn, ctx):
                 os.remove(w.abs(ms[-1][1]))
             elif scn["damage"] == "rm_chain":
                 os.remove(w.abs(h + "/" + ASC + "/" + CHAIN))
-            feats.add("tampered")
+            elif scn["damage"] == "leftover_partial":
+                # what a create killed mid-write leaves behind in every history of the tree (see C15)
+                for hh in roots:
+                    with open(w.abs(hh + "/" + ASC + "/0099_stale_2020-01-01_000000Z.mhl.partial"), "wb") as fh:
+                        fh.write(b'<?xml version="1.0" encoding="UTF-8"?>\n<hashlist version="2.0" xmlns="urn:ASC:MHL:v2.0">\n  <creatorinfo>')
+                feats.add("leftover_partial")
+            if scn["damage"] != "leftover_partial":
+                feats.add("tampered")
         os.makedirs(w.abs("_flat/existing"), exist_ok=True)
         with open(w.abs("_flat/existing/keep.txt"), "w") as fh:
             fh.write("pre-existing content")
